@@ -245,6 +245,48 @@ def run(rep, repo, tier):
                         [str(v) for v in sorted(got.vals)[:6]]),
                     instance=cfg, observed="range() = %s" % [
                         str(v) for v in vals])
+  # the same for the options every fixed-point quantizer reads at call time
+  # (C09 R8): after bits / integer were reassigned the reporters follow
+  for cls, kw0, changes in (
+      ("quantized_bits", dict(bits=4, integer=1, alpha=None),
+       (("integer", 2), ("bits", 6), ("keep_negative", False),
+        ("symmetric", 1))),
+      ("quantized_relu", dict(bits=4, integer=1),
+       (("integer", 2), ("bits", 6))),
+      ("quantized_linear", dict(bits=4, integer=1, alpha=None),
+       (("integer", 2), ("bits", 6), ("keep_negative", False),
+        ("symmetric", 0)))):
+    if cls not in mod.classes:
+      continue
+    for opt, val in changes:
+      cfg = "%s(%s) then q.%s = %s, called" % (
+          cls, oracle.show_kwargs(kw0), opt, val)
+      try:
+        pe, obj = quant.construct(repo, cls, kw0)
+        pe.call(obj, [pe.x_input()], {})
+        pe.setattr(obj, opt, val)
+        out = pe.call(obj, [pe.x_input()], {})
+        got = value_set(Fwd("infer")(out.term))
+        mn = quant.call_method((pe, obj), "min")
+        mx = quant.call_method((pe, obj), "max")
+      except (PyRaise, ConfigRejected):
+        continue
+
+      def const2(v):
+        if isinstance(v, Tensor):
+          return Fwd()(v.term).const_value()
+        return F(v)
+      mn, mx = const2(mn), const2(mx)
+      lo, hi = got.bounds()
+      nlive += 1
+      rep.check(mn is not None and mx is not None and lo is not None and
+                hi is not None and mn <= lo and hi <= mx, "R6",
+                "%s::%s.min/max" % (mod.relpath, cls),
+                "live-object:does-not-enclose",
+                "%s: outputs lie in [%s, %s] but min()=%s max()=%s" % (
+                    cfg, lo, hi, mn, mx), instance=cfg,
+                observed="min()=%s max()=%s outputs [%s, %s]" % (
+                    mn, mx, lo, hi))
   rep.extra["live_object_reporter_points"] = nlive
   rep.extra["configuration_points"] = npoints
   rep.extra["configurations_rejected_by_constructor_or_asserts"] = rejected
